@@ -222,7 +222,12 @@ impl ReferenceProcessor<u32, (u32, usize), (u32, usize)> for NextReferenceIdProc
             return Some((START_REFERENCE_ID, missing_refs_result));
         }
 
-        Some((ref_id_result + 1, missing_refs_result))
+        /*
+         * If the largest existing reference is already the last representable
+         * one, there is no next reference ID to hand out: the result stays at
+         * the limit, which the insert pass treats as exhausted.
+         */
+        Some((ref_id_result.saturating_add(1), missing_refs_result))
     }
 }
 
@@ -454,7 +459,30 @@ impl ReferenceProcessor<Arc<AtomicU32>, InsertReferencesResult, InsertReferences
 
             unwritten_content_start_pos += insert_pos - unwritten_content_start_pos;
 
-            let reference_id = next_reference_id.fetch_add(1, std::sync::atomic::Ordering::Relaxed);
+            /*
+             * Take the next reference ID, failing rather than wrapping round when the ID range is
+             * exhausted.
+             */
+            let reference_id = match next_reference_id.fetch_update(
+                std::sync::atomic::Ordering::Relaxed,
+                std::sync::atomic::Ordering::Relaxed,
+                |id| id.checked_add(1),
+            )
+            {
+                Ok(id) => id,
+                Err(_) =>
+                {
+                    task::spawn(async {
+                        error!("[ref: 36] Reference IDs exhausted");
+                    })
+                    .await;
+
+                    return Some(InsertReferencesResult {
+                        failure: true,
+                        num_inserted_references: 0,
+                    });
+                },
+            };
             let insertable_ref_id_string = entry.insertable_reference_string(reference_id);
 
             match scratch_file
